@@ -1,4 +1,55 @@
-/- C03 — placeholder until the workspace model lands (no theorems yet). -/
-import Signac.Json
+/-
+  C03 — the workspace equals a simple model after any history of API operations.
+  The model (Signac.Workspace) *is* the simple model: per project a finite map
+  id ↦ (state point, document, files) plus live handles; it is tied to the real code
+  step by step by the correspondence run (harness/props/c03.py).  The theorems say what
+  holds of it after EVERY finite history, for every hash function.
+-/
+import Signac.Proofs.WsOps
 namespace Signac.C03
+open Signac Signac.Ws
+
+variable (hash : JVal → String)
+
+/-- After any finite history of public operations (including failing ones) every job
+    directory name is the hash of its state point and no id occurs twice. -/
+theorem reachable_inv (ops : List Op) : WsInv hash (run hash World.empty ops) :=
+  run_inv (wsInv_empty hash) ops
+
+/-- ... from any state satisfying the invariant, one more operation keeps it. -/
+theorem step_preserves (w : World) (h : WsInv hash w) (op : Op) : WsInv hash (step hash w op).1 :=
+  step_inv h op
+
+/-- check() passes after every step of every history, in both projects. -/
+theorem check_passes_always (ops : List Op) (p : Nat) :
+    check hash ((run hash World.empty ops).jobs p) = [] :=
+  check_nil_of_inv (wsInv_jobs (reachable_inv hash ops) p)
+
+/-- Every job directory name is the hash of its state point file. -/
+theorem dir_name_is_hash (ops : List Op) (p : Nat) (id : String) (jd : JobData)
+    (hm : (id, jd) ∈ (run hash World.empty ops).jobs p) : hash jd.sp = id :=
+  (wsInv_jobs (reachable_inv hash ops) p).1 id jd hm
+
+/-- len / iteration / membership agree: the listing has no duplicate id, and an id is
+    listed exactly when a lookup of it succeeds. -/
+theorem len_iter_contains_agree (ops : List Op) (p : Nat) :
+    (((run hash World.empty ops).jobs p).map Prod.fst).Nodup ∧
+    ∀ id, id ∈ ((run hash World.empty ops).jobs p).map Prod.fst ↔
+      (alookup id ((run hash World.empty ops).jobs p)).isSome = true := by
+  refine ⟨(wsInv_jobs (reachable_inv hash ops) p).2, fun id => ⟨?_, alookup_isSome_mem⟩⟩
+  intro h
+  obtain ⟨⟨i, jd⟩, hm, rfl⟩ := List.mem_map.mp h
+  rw [alookup_of_mem_nodup hm (wsInv_jobs (reachable_inv hash ops) p).2]; rfl
+
+/-- Creating, copying, pickling and dropping handles, cache maintenance, session restarts and
+    foreign directories never change any job ("opening is lazy", "only id-named directories count"). -/
+theorem handle_and_cache_ops_touch_no_job (w : World) (op : Op) (h : op.isHandleOrCacheOp = true) :
+    (step hash w op).1.p0 = w.p0 ∧ (step hash w op).1.p1 = w.p1 :=
+  handle_ops_keep_jobs w op h
+
+/- non-vacuity: a concrete history with two projects, a re-key, a failing move and a clone -/
+example : (run (fun v => canonText v) World.empty
+    [.openSp "h1" 0 (.obj [("a", .int 1)]), .init "h1", .dset "h1" "k" (.int 2),
+     .spset "h1" "b" (.int 0), .move "h1" 1, .clone "h1" 0 "h2"]).p0.length = 1 := by decide
+
 end Signac.C03
